@@ -1,5 +1,8 @@
 import VhostModel.SpecDrv.Valid
 import VhostModel.SpecDrv.Srv
+import VhostModel.SpecDrv.Fe
+import VhostModel.SpecDrv.Send
+import VhostModel.SpecDrv.Locks
 /-! Spec driver: evaluates the property's own rule on a scenario (and, for behavioural families, on
 the observation the implementation produced). Imports nothing generated from /repo. -/
 
@@ -8,6 +11,9 @@ def dispatch (line : String) : String :=
   match toks with
   | "valid" :: _ => SpecDrv.Valid.run toks
   | "srv" :: _ => SpecDrv.Srv.run toks
+  | "fe" :: _ => SpecDrv.Fe.run toks
+  | "send" :: _ => SpecDrv.Send.run toks
+  | "locks" :: _ => SpecDrv.Locks.run toks
   | _ => "bad-family"
 
 partial def loop (h : IO.FS.Stream) (out : IO.FS.Stream) : IO Unit := do
